@@ -13,6 +13,26 @@ from pddl_plus_parser.exporters import DomainExporter, ProblemExporter
 # one exporter object per process serves every export (a result kept on the object shows in the next export)
 DOMAIN_EXPORTER = DomainExporter()
 PROBLEM_EXPORTER = ProblemExporter()
+_turn = [0]
+
+
+def domain_text(dom):
+    """the exported text, alternately through extract_domain and through export_domain + the file it wrote"""
+    _turn[0] += 1
+    if _turn[0] % 2:
+        return DOMAIN_EXPORTER.extract_domain(dom)
+    path = pylib.scratch_dir() / "exported_domain.pddl"
+    DOMAIN_EXPORTER.export_domain(dom, path)
+    return open(path, encoding="utf-8").read()
+
+
+def problem_text(prob):
+    _turn[0] += 1
+    if _turn[0] % 2:
+        return PROBLEM_EXPORTER.extract_problem(prob)
+    path = pylib.scratch_dir() / "exported_problem.pddl"
+    PROBLEM_EXPORTER.export_problem(prob, path)
+    return open(path, encoding="utf-8").read()
 
 
 def export_domain_event(dom, dh, new_h, state_handles, calls=None):
@@ -24,7 +44,7 @@ def export_domain_event(dom, dh, new_h, state_handles, calls=None):
 
 def _export_domain_event(dom, dh, new_h, state_handles):
     try:
-        text = DOMAIN_EXPORTER.extract_domain(dom)
+        text = domain_text(dom)
         tree = sexp_reader.read(text)
     except Exception as e:  # noqa: BLE001
         return {"c": "ExportDomain", "d": dh, "h": new_h, "u": "p", "states": state_handles, "out": {"exc": pylib.exc_name(e)}}, None, None
@@ -115,14 +135,14 @@ def run_case(case, opts):
         ev.append(e2)
     # the problem: export, read, re-parse with the library
     try:
-        ptext2 = PROBLEM_EXPORTER.extract_problem(prob)
+        ptext2 = problem_text(prob)
         ptree2 = sexp_reader.read(ptext2)
         eo = {"tree": ptree2}
         ev.append({"c": "ExportProblem", "p": "p", "out": eo})
         out2, prob2 = pylib.observe_problem(ptext2, dom)
         ev.append({"c": "ParseProblem", "h": "p2", "d": "d", "tree": ptree2, "out": out2})
         if prob2 is not None:
-            ptext3 = PROBLEM_EXPORTER.extract_problem(prob2)
+            ptext3 = problem_text(prob2)
             ev.append({"c": "ExportProblem", "p": "p2", "out": {"tree": sexp_reader.read(ptext3)}})
     except Exception as e:  # noqa: BLE001
         ev.append({"c": "ExportProblem", "p": "p", "out": {"exc": pylib.exc_name(e)}})
